@@ -17,8 +17,7 @@ CONSTANTS
   MaxStops = 1
   MaxExpire = 1
   IgnoredStarts = TRUE
-  RaceFinder = FALSE
-  RaceBuffer = FALSE
+  PreRepair = FALSE
 VIEW view
 ACTION_CONSTRAINT GenLog
 CHECK_DEADLOCK FALSE
